@@ -39,6 +39,10 @@ func c03(c *Ctx) {
 	// snapshot (it would wipe acknowledged entries on a monotonic store): the
 	// snapshot fallback is taken only for ErrLogNotFound (round-7 seed C03-N)
 	c12R1(c, "R13/C12.R1")
+	// one vote per term also for a candidate: the vote check reads the persisted
+	// record, which electSelf's self vote goes through as well (round-8 seed
+	// C03-O: an in-memory mirror that the self vote bypassed)
+	sVoteIdentity(c, "R14/S-VOTEID")
 }
 
 // truncationTracks are the per-iteration tracks of appendEntries' entry loop.
